@@ -15,6 +15,7 @@ inductive Beh where
   | panic
   | file (code declared : Nat) (actual : Option Nat)   -- response with a file body (`none` = file missing)
   | events (n : Nat) (code : Nat := 200)                -- event stream of n messages, then closed
+  | echoUpload                                          -- fetch the body, answer with the uploaded file as the response body
   | eventsThenOversize (n : Nat)                        -- n small events, then one the encoder cannot take: the source fails
   | eventBurst (n : Nat)                                -- n events of 30 000 bytes queued before the response is returned
   | unwritable                                          -- a response with a Content-Length field of its own: refused before any byte
@@ -50,6 +51,7 @@ def parseBeh (s : String) : Beh :=
   if k == "B" then .eventBurst n else
   if k == "R" then .getBody n else
   if k == "O" then .eventsThenOversize n else
+  if k == "T" then .echoUpload else
   if k == "w" then .getBody 1000000 else
   if k == "n" then .normal n else if k == "g" then .getBody n else if k == "a" then .always n
   else if k == "d" then .drop else .panic
@@ -102,6 +104,11 @@ def handlerOf (reqs : List SReq) (v : ReqView) : HandlerOut :=
   | .always m => .getBody m
   | .drop => .drop
   | .panic => .panic
+  | .echoUpload =>
+    match v.body with
+    | none => .getBody 1000000
+    | some (.file _ b) => .normal { code := 200, body := ⟨some b.length, { pieces := if b.isEmpty then [] else [b] }⟩ }
+    | some (.vec b) => .normal (Response.text 200 (str s!"mem-{ps}-{b.length}"))
   | .eventsThenOversize n =>
     .normal { code := 200, ctype := some (str "text/event-stream"),
               body := ⟨none, { pieces := (List.range n).map (fun i => EventModel.encode (.message (str s!"e{i+1}-{ps}"))), endsWithError := true }⟩ }
@@ -150,7 +157,7 @@ def exchangeCheck (reqs : List SReq) (calls : List String) (wire : Bytes) (cut :
   let sorted := (is.zip (is.drop 1)).all fun p => p.1 ≤ p.2
   let counts := reqs.zipIdx.map fun (_, i) => (is.filter (· == i)).length
   let multOk := (reqs.zip counts).all fun (r, n) =>
-    n ≤ 1 || (n == 2 && (match r.beh with | .getBody _ | .always _ | .getBodyThen _ _ | .uploadThenEvents _ => true | _ => false))
+    n ≤ 1 || (n == 2 && (match r.beh with | .getBody _ | .always _ | .getBodyThen _ _ | .uploadThenEvents _ | .echoUpload => true | _ => false))
   -- I3: bodies seen equal bodies sent; a second call sees the complete body
   let bodiesOk := calls.all fun call =>
     match call.splitOn ":" with
@@ -187,7 +194,7 @@ def exchangeCheck (reqs : List SReq) (calls : List String) (wire : Bytes) (cut :
      let matchOk := (finals.zip reqs).all fun (p, r) =>
        let body := p.body
        let mark := str r.path
-       ConnContractInfix mark body || p.code ≥ 400 || (match r.beh with | .file .. => true | _ => false)
+       ConnContractInfix mark body || p.code ≥ 400 || (match r.beh with | .file .. => true | .echoUpload => true | _ => false)
      -- I5: nothing after an error / 4xx / 5xx response
      let closedOk := match finals.span (fun p => p.code < 400) with
        | (_, _ :: after) => after.isEmpty
